@@ -331,8 +331,11 @@ func resp3To2(val3 respValue) (value respValue) {
 	switch v := val3.data.(type) {
 	case respSimpleString, respErrorString, respInt, respBulkString:
 		value.data = v
-	case respDouble, respBool, respBigNumber, respVerbatimString:
+	case respDouble, respBool, respBigNumber:
 		value.data = respSimpleString(fmt.Sprintf("%s", v))
+	case respVerbatimString:
+		// the text can contain line breaks, which a simple string can't carry
+		value.data = respBulkString(v.text)
 	case respBlobError:
 		value.data = respErrorString(v.String())
 	case respMap:
